@@ -7,6 +7,9 @@ HERE="$(cd "$(dirname "$0")/.." && pwd)"
 first="${1:-2}"; last="${2:-20}"; shift 2 || true
 ids="${*:-C18 C11 C12 C19}"
 export VERIF_SCRATCH_OUT="$(mktemp -d)"
+# under `vp run --with-repo` use the snapshot of /repo, so that edits to /repo (seeded changes
+# being tested) cannot contaminate the soak
+[ -n "${VP_RUN_REPO:-}" ] && export VERIF_REPO="$VP_RUN_REPO"
 bad=0
 for seed in $(seq "$first" "$last"); do
   for id in $ids; do
